@@ -281,7 +281,7 @@ func jsonObj(fields map[string]any) []byte {
 var registered []string
 
 func genWellFormed(r *rng) request {
-	digits := pick(r, []any{nil, "6", "8", "9", "10", "7", "", "six"})
+	digits := pick(r, []any{nil, "6", "8", "9", "10", "6", "8", "10", "7", "", "six", "08", "+8", "010", "264", "266", "-248", " 8", "8 "})
 	algo := pick(r, []any{nil, "SHA1", "SHA256", "SHA512", "sha1", "MD5", ""})
 	f := map[string]any{"secret": genSecret(r)}
 	if digits != nil {
